@@ -9,6 +9,7 @@
   const G = globalThis;
   const KEY = Symbol.for('c01');
   const log = [];
+  let tdzSeen = false;
   let BUDGET = 3000;
   const BUDGET_TOKEN = '__c01_budget__';
   const hostPaths = new WeakMap();      // host function/proxy -> path
@@ -97,6 +98,11 @@
     try {
       const cls = errClass(v);
       if (cls !== null) {
+        // domain decision only (never part of the observation): a temporal-dead-zone ReferenceError raised by the engine anywhere
+        // in the run - top level, host callback, probe call - puts the INPUT outside the property's domain
+        if (cls === 'ReferenceError' && !userErrors.has(v)) {
+          try { const d = Object.getOwnPropertyDescriptor(v, 'message'); if (d && /before initialization/.test(String(d.value))) tdzSeen = true; } catch (x) { }
+        }
         let s = 'E:' + cls;
         if (userErrors.has(v)) {
           const d = Object.getOwnPropertyDescriptor(v, 'message');
@@ -408,7 +414,7 @@
         try { s = S(api.lexget(k)); } catch (e) { s = 'unreadable:' + S(e); }
         out.push(['lex:' + k, s]);
       }
-      return JSON.stringify({ calls: log, globals: out });
+      return JSON.stringify({ calls: log, globals: out, tdz: tdzSeen });
     },
     serThrown(e) {
       if (e === BUDGET_TOKEN) return JSON.stringify(['throw', 'budget', '']);
